@@ -320,6 +320,26 @@ func (en *Engine) builtin(st *State, fr *Frame, x *ssa.Call, name string, args [
 		}
 		return mkAppend(args[0], args[1:], false, t)
 	case "copy":
+		// copy(a[k:], src) into a slice made on this path: remembered as one segment (rendered by seqSegments, which
+		// also checks that the lengths add up); anything else forgets the destination
+		if a, k, ok := freshSliceFrom(args[0]); ok {
+			if _, dirty := st.dirty[a.Key()]; !dirty {
+				if _, again := st.heap["copyseg:"+a.Key()]; !again {
+					pfx := indexPrefix(a)
+					for hk, c := range st.heap {
+						if ia, isIA := c.addr.(*IndexAddrV); isIA && strings.HasPrefix(hk, pfx) {
+							if i, isC := constInt(ia.I); !isC || i >= k {
+								delete(st.heap, hk)
+							}
+						}
+					}
+					delete(st.heap, "slicecomp:"+a.Key())
+					st.heap["copyseg:"+a.Key()] = cell{a, mkTuple([]Val{intV(k), args[1]})}
+					st.nonce++
+					return mkUnknown("copy", t, st.nonce)
+				}
+			}
+		}
 		en.havoc(st, args[0])
 		st.nonce++
 		return mkUnknown("copy", t, st.nonce)
@@ -626,4 +646,26 @@ func stdInlined(f *ssa.Function) bool {
 		}
 	}
 	return false
+}
+
+// freshSliceFrom: v is a[k:] (k constant, no upper bound) of a slice a made by make on this path, or a itself (k = 0).
+func freshSliceFrom(v Val) (*AllocV, int64, bool) {
+	switch x := v.(type) {
+	case *AllocV:
+		if x.Comment == "makeslice" {
+			return x, 0, true
+		}
+	case *SliceV:
+		a, ok := x.X.(*AllocV)
+		if !ok || a.Comment != "makeslice" || x.Hi != nil || x.Max != nil {
+			return nil, 0, false
+		}
+		if x.Lo == nil {
+			return a, 0, true
+		}
+		if k, isC := constInt(x.Lo); isC && k >= 0 {
+			return a, k, true
+		}
+	}
+	return nil, 0, false
 }
